@@ -194,6 +194,7 @@ fn laid_obs(prog: &AirProgram) -> String {
 }
 
 // ---- the source-text path of `aelys compile --emit-air`: lexer, parser, sema, lower, layout, print
+fn sname_src(n: u64) -> String { match n { 7001 => "Int".into(), 7002 => "Float".into(), 7003 => "Missing".into(), _ => format!("S{n}") } }
 fn src_ty(t: &T) -> Option<(String, String)> {
     // (type as written in source, type as the AIR printer shows it)
     Some(match t {
@@ -202,24 +203,33 @@ fn src_ty(t: &T) -> Option<(String, String)> {
         T::P("U32") => ("u32".into(), "u32".into()), T::P("U64") => ("u64".into(), "u64".into()), T::P("F32") => ("f32".into(), "f32".into()),
         T::P("F64") => ("float".into(), "f64".into()), T::P("Bool") => ("bool".into(), "bool".into()), T::P("Str") => ("string".into(), "str".into()),
         T::Slice(i) => { let (a, b) = src_ty(i)?; (format!("array<{}>", a), format!("[{}]", b)) }
-        T::Struct(n) => (format!("S{n}"), format!("S{n}")),
+        T::Struct(n) => (sname_src(*n), sname_src(*n)),
         _ => return None,
     })
 }
-fn to_source(p: &Prog) -> Option<(String, Vec<Vec<String>>)> {
-    let mut src = String::new();
+/// where a declaration stands: 0 top level, 1 inside `if true { }` at top level, 2 in a function body
+/// before its return, 3 in the function body after the return, 4 at top level after a `return 0`
+fn to_source(p: &Prog, place: &[u8]) -> Option<(String, Vec<Vec<String>>)> {
+    let mut regions: Vec<String> = vec![String::new(); 5];
     let mut shown = Vec::new();
-    for (n, fs) in p {
+    for (k, (n, fs)) in p.iter().enumerate() {
         let mut fl = Vec::new();
         let mut sh = Vec::new();
         for (i, t) in fs.iter().enumerate() { let (a, b) = src_ty(t)?; fl.push(format!("f{}: {}", i, a)); sh.push(b); }
-        src.push_str(&format!("struct S{} {{ {} }}\n", n, fl.join(", ")));
+        let decl = format!("struct {} {{ {} }}\n", sname_src(*n), fl.join(", "));
+        let r = *place.get(k).unwrap_or(&0) as usize;
+        regions[r].push_str(&if r == 1 { format!("if true {{\n{}}}\n", decl) } else { decl });
         shown.push(sh);
     }
-    src.push_str("1\n");
+    let mut src = String::new();
+    src.push_str(&regions[0]);
+    src.push_str(&regions[1]);
+    let has_fn = !regions[2].is_empty() || !regions[3].is_empty();
+    if has_fn { src.push_str(&format!("fn f() -> int {{\n{}return 1\n{}}}\n", regions[2], regions[3])); }
+    if !regions[4].is_empty() { src.push_str(&format!("return 0\n{}", regions[4])); } else { src.push_str(if has_fn { "f()\n" } else { "1\n" }); }
     Some((src, shown))
 }
-fn run_source(src: &str, shown: &[Vec<String>]) -> String {
+fn run_source(src: &str, p: &Prog, shown: &[Vec<String>], opt: u32) -> String {
     use aelys_frontend::lexer::Lexer;
     use aelys_frontend::parser::Parser;
     let source = aelys_syntax::Source::new("<verif>", src);
@@ -227,18 +237,29 @@ fn run_source(src: &str, shown: &[Vec<String>]) -> String {
         let tokens = Lexer::with_source(source.clone()).scan().map_err(|e| format!("lex: {e}"))?;
         let ast = Parser::new(tokens, source.clone()).parse().map_err(|e| format!("parse: {e}"))?;
         let typed = aelys_sema::TypeInference::infer_program(ast, source.clone()).map_err(|es| format!("sema: {}", es.len()))?;
+        let level = match opt { 0 => aelys_opt::OptimizationLevel::None, 1 => aelys_opt::OptimizationLevel::Basic, 2 => aelys_opt::OptimizationLevel::Standard, _ => aelys_opt::OptimizationLevel::Aggressive };
+        let typed = aelys_opt::Optimizer::new(level).optimize(typed);
         let mut air = aelys_air::lower::lower(&typed);
         compute_layouts(&mut air);
         Ok(air)
     }));
     match r {
-        Ok(Ok(air)) => {
-            let user: Vec<&AirStructDef> = air.structs.iter().filter(|s| !s.is_closure_env).collect();
+        Ok(Ok(mut air)) => {
+            // the declared structs, in the order of the expected program (the AIR lists top-level ones first)
+            let user: Vec<AirStructDef> = air.structs.iter().filter(|s| !s.is_closure_env).cloned().collect();
             if user.len() != shown.len() { return "OTypeMismatch".into(); }
-            for (s, sh) in user.iter().zip(shown) {
-                let got: Vec<String> = s.fields.iter().map(|f| aelys_air::print::fmt_type(&f.ty)).collect();
+            let mut used = vec![false; user.len()];
+            let mut ordered = Vec::new();
+            for ((n, _), sh) in p.iter().zip(shown) {
+                let want = sname_src(*n);
+                let Some(k) = (0..user.len()).find(|&k| !used[k] && user[k].name == want) else { return "OTypeMismatch".into() };
+                used[k] = true;
+                let got: Vec<String> = user[k].fields.iter().map(|f| aelys_air::print::fmt_type(&f.ty)).collect();
                 if &got != sh { return "OTypeMismatch".into(); }
+                ordered.push(user[k].clone());
             }
+            air.structs = ordered;
+            air.functions.clear();
             laid_obs(&air)
         }
         Ok(Err(e)) => { DIAG_DETAIL.with(|d| *d.borrow_mut() = "frontend"); let _ = e; "OOther".into() }
@@ -249,14 +270,17 @@ fn run_source(src: &str, shown: &[Vec<String>]) -> String {
         }
     }
 }
-fn emit_src(p: &Prog, class: &str) {
-    if let Some((src, shown)) = to_source(p) {
-        DIAG_DETAIL.with(|d| *d.borrow_mut() = "");
-        let o = run_source(&src, &shown);
-        let detail = DIAG_DETAIL.with(|d| *d.borrow());
-        println!("QCompute {}\t{}\t{}\t{}\t{}", coq_prog(p), o, compact_prog(p), class, detail);
+fn emit_src_at(p: &Prog, place: &[u8], class: &str, opts: &[u32]) {
+    if let Some((src, shown)) = to_source(p, place) {
+        for &opt in opts {
+            DIAG_DETAIL.with(|d| *d.borrow_mut() = "");
+            let o = run_source(&src, p, &shown, opt);
+            let detail = DIAG_DETAIL.with(|d| *d.borrow());
+            println!("QCompute {}\t{}\t{}\t{}\t{}O{}", coq_prog(p), o, compact_prog(p), class, if detail.is_empty() { String::new() } else { format!("{detail}:") }, opt);
+        }
     }
 }
+fn emit_src(p: &Prog, class: &str) { emit_src_at(p, &[], class, &[0]); }
 fn gen_src_ty(rng: &mut Rng, lower: &[u64], all: &[u64]) -> T {
     let k = rng.below(100);
     if k < 35 && !lower.is_empty() { T::Struct(*rng.pick(lower)) }
@@ -278,6 +302,19 @@ fn source_stream(rng: &mut Rng, cases: u64) {
         (vec![(1, vec![T::Struct(2)]), (2, vec![T::Struct(3)]), (3, vec![T::P("F64"), T::Struct(1)])], "src-cycle"),
     ];
     for (p, c) in &fixed { emit_src(p, c); }
+    let ab: Prog = vec![(1, vec![T::P("I8"), T::Struct(2), T::P("I8")]), (2, vec![T::P("I8"), T::P("I8")])];
+    let all = [0u32, 1, 2, 3];
+    emit_src_at(&ab, &[2, 2], "src-nested", &all);          // both in a function body, the embedding one first
+    emit_src_at(&ab, &[0, 1], "src-nested", &all);          // embedded struct declared in a top-level block
+    emit_src_at(&ab, &[0, 2], "src-nested", &all);          // ... in a function body
+    emit_src_at(&ab, &[0, 3], "src-after-return", &all);    // ... in a function body after its return
+    emit_src_at(&ab, &[0, 4], "src-after-return", &all);    // ... at top level after `return 0`
+    let cyc: Prog = vec![(1, vec![T::P("I8"), T::Struct(2)]), (2, vec![T::P("I8"), T::Struct(1)])];
+    emit_src_at(&cyc, &[0, 4], "src-cycle", &all);          // the cycle is closed by a declaration after `return 0`
+    emit_src_at(&cyc, &[2, 3], "src-cycle", &all);
+    emit_src_at(&vec![(1, vec![T::P("I8"), T::Struct(7003), T::P("I8")])], &[0], "src-undef", &all);
+    emit_src_at(&vec![(7001, vec![T::P("I8")]), (7002, vec![T::P("I8")]), (1, vec![T::Struct(7001), T::Struct(7002), T::P("I8")])], &[0, 0, 0], "src-builtin-name", &all);
+    emit_src_at(&vec![(1, vec![T::P("I8")]), (1, vec![T::P("I64"), T::P("I8")]), (2, vec![T::P("I8"), T::Struct(1)])], &[0, 0, 0], "src-dup", &all);
     for _ in 0..cases {
         let n = 1 + rng.below(8) as usize;
         let mut names: Vec<u64> = (1..=n as u64).collect();
@@ -299,6 +336,12 @@ fn source_stream(rng: &mut Rng, cases: u64) {
                 let mut idx: Vec<usize> = (0..p.len()).collect(); shuffle(rng, &mut idx);
                 for w in 0..len { let to = p[idx[(w + 1) % len]].0; insert_field(rng, &mut p[idx[w]].1, T::Struct(to)); }
                 shuffle(rng, &mut p); emit_src(&p, "src-cycle");
+            }
+            4 | 5 | 6 => { // declarations spread over top level, blocks, a function body, behind returns; two optimisation levels
+                shuffle(rng, &mut p);
+                let place: Vec<u8> = (0..p.len()).map(|_| *rng.pick(&[0u8, 0, 1, 2, 2, 3, 4])).collect();
+                let cls = if place.iter().any(|&r| r >= 3) { "src-after-return" } else { "src-nested" };
+                emit_src_at(&p, &place, cls, &[0, 2 + rng.below(2) as u32]);
             }
             _ => {
                 match rng.below(3) { 0 => {}, 1 => p.reverse(), _ => shuffle(rng, &mut p) }
